@@ -41,14 +41,15 @@ fn direct_calls() -> u32 {
     use minimal_lexical::bellerophon::bellerophon;
     use minimal_lexical::number::Number;
     let mut x: u64 = 0x243F6A8885A308D3;
-    let n = 1_000_000;
+    let n = 2_000_000;
     let (mut bad64, mut bad32) = (0u32, 0u32);
     for _ in 0..n {
         x = x.wrapping_mul(6364136223846793005).wrapping_add(1442695040888963407);
-        let bits = 1 + (x >> 58) % 50;
-        let w = (x >> 6) & ((1u64 << bits) - 1) | 1;
-        let q64 = ((x >> 30) % 500) as i32 - 300;
-        let q32 = ((x >> 30) % 70) as i32 - 40;
+        let bits = 1 + (x >> 58) % 63;
+        let w = (x >> 1) & ((1u64 << bits) - 1) | 1;
+        // the whole exponent range of each format, subnormals included
+        let q64 = ((x >> 30) % 800) as i32 - 400;
+        let q32 = ((x >> 30) % 140) as i32 - 80;
         let t = |m, e, many| Number { mantissa: m, exponent: e, many_digits: many };
         let r = bellerophon::<f64>(&t(w, q64, true));
         if r.exp >= 0 {
